@@ -229,6 +229,14 @@ def cases(tier, seed):
                                ("KA", ["KA"], {"KA": "shadowed"}), ("-KA * KA", ["-", "KA", "*", "KA"], {"KA": "shadowed"}),
                                ("KA | KB ^ a", ["KA", "|", "KB", "^", "a"], {"KA": "const", "KB": "shadowed"})):
         yield dict(base, label="ident " + text, text=text, tokens=toks, consts=consts, rounds=3)
+    # unbounded integers: operands beyond 2^53 / 2^64 (concrete literals; a float detour in / or % shows here)
+    bigs = ["0xFFFFFFFFFFFFFFFF", "18446744073709551615", "0x20000000000001", "9007199254740993", "0x7FFFFFFFFFFFFFFFFFFFFFFF", "123456789012345678901234567890"]
+    for b in bigs:
+        for tmpl in (["L", "/", "1", "+", "a"], ["L", "%", "0x10", "+", "a"], ["L", "/", "3", "*", "3", "+", "L", "%", "3", "-", "a"],
+                     ["(", "L", "+", "a", ")", "/", "7"], ["L", "%", "(", "a", "+", "1000", ")"], ["L", ">>", "3", "<<", "3", "|", "a"],
+                     ["L", "/", "L"], ["L", "%", "L"], ["(", "L", "-", "1", ")", "/", "L"], ["L", "*", "L", "/", "L"]):
+            toks = [b if t == "L" else t for t in tmpl]
+            yield dict(base, label="big " + " ".join(toks), text=" ".join(toks), tokens=toks, width=512, range=[0, 127])
     # callers: #define, enum values, array lengths
     for shape in shapes(5):
         toks = instantiate(shape)
